@@ -753,7 +753,7 @@ func (fc *funcContext) translateExpr(expr ast.Expr) *expression {
 						return fc.formatExpr("%s(%s)", recv, externalizeArgs(e.Args))
 					case "New":
 						if e.Ellipsis.IsValid() {
-							return fc.formatExpr("new ($global.Function.prototype.bind.apply(%s, [undefined].concat(%s)))", recv, externalizeExpr(e.Args[0]))
+							return fc.formatExpr("new ($global.Function.prototype.bind.apply(%s, [undefined].concat(%s)))()", recv, externalizeExpr(e.Args[0]))
 						}
 						return fc.formatExpr("new (%s)(%s)", recv, externalizeArgs(e.Args))
 					case "Bool":
